@@ -935,6 +935,7 @@ func CheckC12(e *Env) (int, error) {
 	tagSwitch := map[string]int{}
 	inconclusive := map[string]int{}
 	policies := map[string]int{}
+	warmRuns, warmCalls, idleRuns := 0, 0, 0
 	probes := map[string]int{}
 	tolerated := 0
 	var samples []interface{}
@@ -990,6 +991,13 @@ func CheckC12(e *Env) (int, error) {
 				pol = "hot-sites"
 			}
 			policies[pol]++
+			if len(sp.Warm) > 0 {
+				warmRuns++
+				warmCalls += len(sp.Warm)
+			}
+			if sp.WarmJump != 0 {
+				idleRuns++
+			}
 			if v != nil && v.Inconclusive != "" {
 				inconclusive[v.Inconclusive]++
 				nops := 0
@@ -1121,7 +1129,11 @@ func CheckC12(e *Env) (int, error) {
 		"nontrivial_runs":                        nontrivial,
 		"distinct_schedules":                     len(digests),
 		"sim_steps_total":                        tot.Steps,
-		"sim_time_note":                          "no clock in the system; simulated time is counted in scheduler steps (statement-level yields)",
+		"sim_time_note":                          "the unchanged tree reads no clock, so simulated time is counted in scheduler steps (statement-level yields); a tree that imports \"time\" gets Now/Since/Until from the clock seam, which the simulator moves forward in jumps (an idle period between the sequential warm-up calls and the concurrent callers)",
+		"clock_seam_files":                       e.ClockFiles("irepo"),
+		"runs_with_sequential_warm_up":           warmRuns,
+		"warm_up_calls_total":                    warmCalls,
+		"runs_with_simulated_idle_time":          idleRuns,
 		"scheduler_totals":                       tot,
 		"policies":                               policies,
 		"yield_sites":                            len(rep.Sites),
